@@ -24,8 +24,8 @@ use sophia_api::source::{QuadSource, Source, StreamResult, TripleSource};
 use sophia_api::term::{IriRef, SimpleTerm, Term};
 use sophia_api::triple::Triple;
 use std::any::Any;
-use std::cell::RefCell;
-use std::collections::BTreeSet;
+use std::cell::{Cell, RefCell};
+use std::collections::{BTreeSet, HashSet};
 use std::convert::Infallible;
 use std::error::Error;
 use std::fmt;
@@ -291,6 +291,60 @@ enum Cons {
     Rem(Vec<It>),
     Small(usize, Vec<It>),
     Ser(usize, String),
+    /// collect into HashSet / BTreeSet
+    Hs,
+    Bs,
+    /// add_to_graph on a HashSet graph/dataset, remove_all on a BTreeSet graph/dataset
+    AddH(Vec<It>),
+    RemB(Vec<It>),
+    /// streaming (non-pretty) Turtle / TriG / RDF-XML serializer over a writer failing after `limit`
+    /// bytes; `plan` = where the third-party formatter alone hits the limit
+    Rio(RioKind, usize, String, Plan),
+}
+
+#[derive(Clone, Copy, Debug, PartialEq)]
+enum RioKind {
+    Ttl,
+    Trig,
+    Xml,
+}
+
+impl RioKind {
+    fn name(self) -> &'static str {
+        match self {
+            RioKind::Ttl => "ttl",
+            RioKind::Trig => "trig",
+            RioKind::Xml => "xml",
+        }
+    }
+}
+
+/// `-` never, `H` in the constructor, `F` in `finish`, `c<j>` on `format` call j
+#[derive(Clone, Copy, Debug, PartialEq)]
+enum Plan {
+    Never,
+    New,
+    Finish,
+    Call(usize),
+}
+
+impl Plan {
+    fn render(self) -> String {
+        match self {
+            Plan::Never => "-".into(),
+            Plan::New => "H".into(),
+            Plan::Finish => "F".into(),
+            Plan::Call(j) => format!("c{}", j),
+        }
+    }
+    fn parse(s: &str) -> Option<Plan> {
+        Some(match s {
+            "-" => Plan::Never,
+            "H" => Plan::New,
+            "F" => Plan::Finish,
+            _ => Plan::Call(s.strip_prefix('c')?.parse().ok()?),
+        })
+    }
 }
 
 fn render_pre(v: &[It]) -> String {
@@ -332,6 +386,11 @@ impl Cons {
             Cons::Rem(p) => format!("rem.{}", render_pre(p)),
             Cons::Small(f, p) => format!("small.{}.{}", f, render_pre(p)),
             Cons::Ser(l, e) => format!("ser.{}.{}", l, e),
+            Cons::Hs => "hs".into(),
+            Cons::Bs => "bs".into(),
+            Cons::AddH(p) => format!("addh.{}", render_pre(p)),
+            Cons::RemB(p) => format!("remb.{}", render_pre(p)),
+            Cons::Rio(k, l, e, pl) => format!("rio.{}.{}.{}.{}", k.name(), l, e, pl.render()),
         }
     }
     fn parse(s: &str) -> Option<Cons> {
@@ -347,6 +406,21 @@ impl Cons {
             ["rem", p] => Cons::Rem(parse_pre(p)?),
             ["small", fr, p] => Cons::Small(fr.parse().ok()?, parse_pre(p)?),
             ["ser", l, e] => Cons::Ser(l.parse().ok()?, e.to_string()),
+            ["hs"] => Cons::Hs,
+            ["bs"] => Cons::Bs,
+            ["addh", p] => Cons::AddH(parse_pre(p)?),
+            ["remb", p] => Cons::RemB(parse_pre(p)?),
+            ["rio", k, l, e, pl] => Cons::Rio(
+                match *k {
+                    "ttl" => RioKind::Ttl,
+                    "trig" => RioKind::Trig,
+                    "xml" => RioKind::Xml,
+                    _ => return None,
+                },
+                l.parse().ok()?,
+                e.to_string(),
+                Plan::parse(pl)?,
+            ),
             _ => return None,
         })
     }
@@ -363,6 +437,13 @@ impl Cons {
             Cons::Rem(_) => "rem",
             Cons::Small(..) => "small",
             Cons::Ser(..) => "ser",
+            Cons::Hs => "hashset",
+            Cons::Bs => "btreeset",
+            Cons::AddH(_) => "add_hashset",
+            Cons::RemB(_) => "rem_btreeset",
+            Cons::Rio(RioKind::Ttl, ..) => "rio_turtle",
+            Cons::Rio(RioKind::Trig, ..) => "rio_trig",
+            Cons::Rio(RioKind::Xml, ..) => "rio_xml",
         }
     }
 }
@@ -635,6 +716,27 @@ impl Source for BoxQ {
 /// items, then the step's error if it has one (like a parser failing in the middle of a statement)
 struct Chunked<T> {
     steps: std::collections::VecDeque<(Vec<T>, Option<String>)>,
+    /// number of steps taken out of the source
+    pulled: Rc<Cell<usize>>,
+}
+
+/// an iterator that counts how many elements were taken out of it
+struct Counting<I> {
+    inner: I,
+    pulled: Rc<Cell<usize>>,
+}
+impl<I: Iterator> Iterator for Counting<I> {
+    type Item = I::Item;
+    fn next(&mut self) -> Option<I::Item> {
+        let x = self.inner.next();
+        if x.is_some() {
+            self.pulled.set(self.pulled.get() + 1);
+        }
+        x
+    }
+    fn size_hint(&self) -> (usize, Option<usize>) {
+        self.inner.size_hint()
+    }
 }
 
 macro_rules! impl_chunked {
@@ -648,6 +750,7 @@ macro_rules! impl_chunked {
                 F: FnMut($t) -> Result<(), E>,
             {
                 let Some((items, err)) = self.steps.pop_front() else { return Ok(false) };
+                self.pulled.set(self.pulled.get() + 1);
                 for i in items {
                     f(i).map_err(SinkError)?;
                 }
@@ -723,15 +826,25 @@ struct Obs {
     steps: Option<usize>,
     fin: String,
     notes: Vec<String>,
+    /// writer consumers: length of the tap log when the writer first refused bytes
+    refused_at: Option<usize>,
 }
 
 impl Obs {
     fn bad(msg: &str) -> Obs {
-        Obs { log: vec![], ret: Ret::Ok, val: None, steps: None, fin: "-".into(), notes: vec![msg.to_string()] }
+        Obs {
+            log: vec![],
+            ret: Ret::Ok,
+            val: None,
+            steps: None,
+            fin: "-".into(),
+            notes: vec![msg.to_string()],
+            refused_at: None,
+        }
     }
 }
 
-fn ret_of<T, E1: Error, E2: Error>(r: &StreamResult<T, E1, E2>, sink: impl Fn(&E2) -> String) -> Ret {
+fn ret_of<T, E1: Error + 'static, E2: Error>(r: &StreamResult<T, E1, E2>, sink: impl Fn(&E2) -> String) -> Ret {
     match r {
         Ok(_) => Ret::Ok,
         Err(SourceError(e)) => Ret::Src(src_payload(e)),
@@ -739,16 +852,40 @@ fn ret_of<T, E1: Error, E2: Error>(r: &StreamResult<T, E1, E2>, sink: impl Fn(&E
     }
 }
 
-/// parser messages are free text: compare them in hex; injected payloads are plain tokens
-fn src_payload<E: fmt::Display>(e: &E) -> String {
-    let s = e.to_string();
-    if !s.is_empty() && s.chars().all(|c| c.is_ascii_alphanumeric()) && s.len() < 12 { s } else { hex(&s) }
+thread_local! {
+    /// the source-error message the request expects (parser sources), so that an error that still
+    /// *carries* the original one (as its `source()`) is recognised although its Display differs
+    static EXPECTED_SRC: RefCell<Option<String>> = const { RefCell::new(None) };
+}
+
+fn token(s: &str) -> String {
+    if !s.is_empty() && s.chars().all(|c| c.is_ascii_alphanumeric()) && s.len() < 12 { s.to_string() } else { hex(s) }
+}
+
+/// parser messages are free text: compare them in hex; injected payloads are plain tokens.  "carrying
+/// the original error value" is honoured anywhere in the `source()` chain.
+fn src_payload<E: Error + 'static>(e: &E) -> String {
+    let own = token(&e.to_string());
+    let want = EXPECTED_SRC.with(|x| x.borrow().clone());
+    if let Some(want) = want {
+        let mut cur: Option<&(dyn Error + 'static)> = Some(e);
+        while let Some(x) = cur {
+            if token(&x.to_string()) == want {
+                return want;
+            }
+            cur = x.source();
+        }
+    }
+    own
 }
 
 struct FailAfter {
     buf: Vec<u8>,
     limit: usize,
     msg: String,
+    /// the tap's log, and its length when bytes were first refused
+    log: Log,
+    refused_at: Option<usize>,
 }
 impl Write for FailAfter {
     fn write(&mut self, b: &[u8]) -> io::Result<usize> {
@@ -757,6 +894,9 @@ impl Write for FailAfter {
         }
         let room = self.limit - self.buf.len();
         if room == 0 {
+            if self.refused_at.is_none() {
+                self.refused_at = Some(self.log.borrow().len());
+            }
             return Err(io::Error::new(io::ErrorKind::BrokenPipe, self.msg.clone()));
         }
         let n = room.min(b.len());
@@ -768,9 +908,21 @@ impl Write for FailAfter {
     }
 }
 
+#[derive(Clone, Copy, PartialEq, Debug)]
+enum Mode {
+    /// whole stream
+    W,
+    /// step-wise `try_for_some_item`
+    S,
+    /// step-wise `try_for_some_triple` / `try_for_some_quad`
+    S2,
+    /// step-wise `for_some_triple` / `for_some_quad`
+    F,
+}
+
 struct Cx {
     cons: Cons,
-    stepwise: bool,
+    mode: Mode,
     /// whole chain length and position of the adapter followed by `.into_iter()`
     total: usize,
     iter_at: Option<usize>,
@@ -797,67 +949,151 @@ fn dataset_items<D: Dataset>(d: &D) -> Vec<It> {
     sorted(d.quads().filter_map(|q| q.ok()).filter_map(|q| val_term(q.o()).map(|n| It::Q(n, g_q(&q)))).collect())
 }
 
-/// a 16-bit-index graph with exactly `free` unused term slots, already holding `pre` and knowing
-/// `x:s`, `x:p` (so that only a new object literal can need a slot)
-fn small_graph(free: usize, pre: &[It]) -> sophia_inmem::graph::small::LightGraph {
-    let mut g = sophia_inmem::graph::small::LightGraph::new();
+type SmallGraph = sophia_inmem::graph::small::LightGraph;
+
+fn small_base(nlit: usize) -> SmallGraph {
+    let mut g = SmallGraph::new();
     g.insert_triple([iri("x:s"), iri("x:p"), iri("x:f")]).unwrap();
-    let mut used = 3usize;
+    for i in 0..nlit {
+        g.insert_triple(t3(1_000_000 + i as u64)).unwrap();
+    }
+    g
+}
+
+/// how many more terms fit into a small graph that holds the base triple and `nlit` distinct
+/// literal objects: measured by inserting until `TermIndexFullError` (nothing about the index
+/// width or the interning scheme is assumed; `guess` only speeds the measurement up)
+fn probe_room(nlit: usize) -> usize {
+    let guess = (u16::MAX as usize).saturating_sub(1000);
+    let mut g = small_base(nlit);
+    let mut k = 0usize;
+    let mut bulk_ok = true;
+    while k + 3 <= guess {
+        let t = [iri(&format!("f:{}", k)), iri(&format!("f:{}", k + 1)), iri(&format!("f:{}", k + 2))];
+        if g.insert_triple(t).is_err() {
+            bulk_ok = false; // smaller than guessed: an unknown part of this triple was interned
+            break;
+        }
+        k += 3;
+    }
+    if !bulk_ok {
+        g = small_base(nlit);
+        k = 0;
+    }
+    loop {
+        if g.insert_triple([iri("x:s"), iri("x:p"), iri(&format!("f:{}", k))]).is_err() {
+            return k;
+        }
+        k += 1;
+        if k > 10_000_000 {
+            return usize::MAX; // not a small index at all
+        }
+    }
+}
+
+thread_local! {
+    /// `Some(room0)` if measured: an empty-but-for-the-base graph has `room0` free slots and every new
+    /// distinct object literal takes exactly one (checked for 1 and 3 literals); `None` otherwise
+    static SMALL_CALIBRATION: RefCell<Option<Option<usize>>> = const { RefCell::new(None) };
+}
+
+fn small_calibration() -> Option<usize> {
+    SMALL_CALIBRATION.with(|c| {
+        let mut c = c.borrow_mut();
+        if c.is_none() {
+            let r0 = probe_room(0);
+            let ok = r0 != usize::MAX && r0 >= 64 && probe_room(1) + 1 == r0 && probe_room(3) + 3 == r0;
+            *c = Some(if ok { Some(r0) } else { None });
+        }
+        c.unwrap()
+    })
+}
+
+/// a small-index graph with exactly `free` unused term slots, already holding `pre` and knowing
+/// `x:s`, `x:p`; `None` if the calibration does not support the construction
+fn small_graph(free: usize, pre: &[It]) -> Option<SmallGraph> {
+    let room0 = small_calibration()?;
+    let mut g = SmallGraph::new();
+    g.insert_triple([iri("x:s"), iri("x:p"), iri("x:f")]).unwrap();
     let mut seen = BTreeSet::new();
     for p in pre {
-        if seen.insert(p.val()) {
-            used += 1;
-        }
+        seen.insert(p.val());
         g.insert_triple(t3(p.val())).unwrap();
     }
-    let cap = u16::MAX as usize; // indices 0..=65534
-    let need = cap.saturating_sub(free).saturating_sub(used);
+    let need = room0.checked_sub(seen.len())?.checked_sub(free)?;
     let mut k = 0usize;
     while need - k >= 3 {
-        g.insert_triple([iri(&format!("f:{}", k)), iri(&format!("f:{}", k + 1)), iri(&format!("f:{}", k + 2))]).unwrap();
+        g.insert_triple([iri(&format!("f:{}", k)), iri(&format!("f:{}", k + 1)), iri(&format!("f:{}", k + 2))]).ok()?;
         k += 3;
     }
     while k < need {
-        g.insert_triple([iri("x:s"), iri("x:p"), iri(&format!("f:{}", k))]).unwrap();
+        g.insert_triple([iri("x:s"), iri("x:p"), iri(&format!("f:{}", k))]).ok()?;
         k += 1;
     }
-    g
+    Some(g)
 }
 
 fn index_full(_: &sophia_inmem::index::TermIndexFullError) -> String {
     "index-full".into()
 }
 
-fn consume_t<S: TripleSource>(s: S, cx: &Cx) -> Obs {
+fn pre_t<G: MutableGraph>(g: &mut G, pre: &[It]) {
+    for p in pre {
+        let _ = g.insert_triple(t3(p.val()));
+    }
+}
+
+fn pre_q<D: MutableDataset>(d: &mut D, pre: &[It]) {
+    for p in pre {
+        if let It::Q(n, g) = p {
+            let _ = d.insert_quad(q4(*n, *g));
+        }
+    }
+}
+
+fn consume_t<S: TripleSource>(s: S, cx: &Cx) -> Obs
+where
+    S::Error: 'static,
+{
     let log: Log = Rc::new(RefCell::new(vec![]));
     let mut src = TapT { inner: s, log: log.clone() };
     let mut notes = vec![];
+    let mut refused_at = None;
     let (ret, val, steps, fin) = match &cx.cons {
         Cons::Try(j, e) => {
             let mut own: Vec<It> = vec![];
             let mut calls = 0usize;
-            let (ret, steps) = if cx.stepwise {
+            let (ret, steps) = if cx.mode != Mode::W {
                 let mut steps = 0usize;
                 let ret = loop {
-                    let r = src.try_for_some_item(|t| {
-                        own.push(It::T(val_t(&t)));
-                        let c = calls;
-                        calls += 1;
-                        if Some(c) == *j { Err(SinkErr(e.clone())) } else { Ok(()) }
-                    });
+                    let r = if cx.mode == Mode::S2 {
+                        src.try_for_some_triple(|x| {
+                            own.push(It::T(val_t(&x)));
+                            let c = calls;
+                            calls += 1;
+                            if Some(c) == *j { Err(SinkErr(e.clone())) } else { Ok(()) }
+                        })
+                    } else {
+                        src.try_for_some_item(|x| {
+                            own.push(It::T(val_t(&x)));
+                            let c = calls;
+                            calls += 1;
+                            if Some(c) == *j { Err(SinkErr(e.clone())) } else { Ok(()) }
+                        })
+                    };
                     match r {
                         Ok(true) => steps += 1,
                         Ok(false) => break Ret::Ok,
                         r => break ret_of(&r, |e| e.0.clone()),
                     }
-                    if steps > 10_000 {
+                    if steps > 100_000 {
                         break Ret::Src("never-ending".into());
                     }
                 };
                 (ret, Some(steps))
             } else {
-                let r = src.try_for_each_item(|t| {
-                    own.push(It::T(val_t(&t)));
+                let r = src.try_for_each_item(|x| {
+                    own.push(It::T(val_t(&x)));
                     let c = calls;
                     calls += 1;
                     if Some(c) == *j { Err(SinkErr(e.clone())) } else { Ok(()) }
@@ -871,7 +1107,24 @@ fn consume_t<S: TripleSource>(s: S, cx: &Cx) -> Obs {
         }
         Cons::For => {
             let mut own: Vec<It> = vec![];
-            let r = src.for_each_item(|t| own.push(It::T(val_t(&t))));
+            let (r, steps) = if cx.mode == Mode::F {
+                // `for_some_triple` until it returns `Ok(false)` or an error
+                let mut steps = 0usize;
+                let r = loop {
+                    match src.for_some_triple(|x| own.push(It::T(val_t(&x)))) {
+                        Ok(true) => steps += 1,
+                        Ok(false) => break Ok(()),
+                        Err(e) => break Err(e),
+                    }
+                    if steps > 100_000 {
+                        notes.push("never_ending".into());
+                        break Ok(());
+                    }
+                };
+                (r, Some(steps))
+            } else {
+                (src.for_each_item(|x| own.push(It::T(val_t(&x)))), None)
+            };
             if own != *log.borrow() {
                 notes.push("tap".into());
             }
@@ -881,14 +1134,30 @@ fn consume_t<S: TripleSource>(s: S, cx: &Cx) -> Obs {
                     Err(e) => Ret::Src(src_payload(&e)),
                 },
                 None,
-                None,
+                steps,
                 "-".to_string(),
             )
         }
         Cons::Vec => {
             let r: StreamResult<Vec<T3>, S::Error, Infallible> = src.collect_triples();
             let fin = match &r {
-                Ok(v) => render_items(&v.iter().map(|t| It::T(val_t(t))).collect::<Vec<_>>()),
+                Ok(v) => render_items(&v.iter().map(|x| It::T(val_t(x))).collect::<Vec<_>>()),
+                Err(_) => "-".into(),
+            };
+            (ret_of(&r, |_| "infallible".into()), None, None, fin)
+        }
+        Cons::Hs => {
+            let r: StreamResult<HashSet<T3>, S::Error, Infallible> = src.collect_triples();
+            let fin = match &r {
+                Ok(g) => render_items(&graph_items(g)),
+                Err(_) => "-".into(),
+            };
+            (ret_of(&r, |_| "infallible".into()), None, None, fin)
+        }
+        Cons::Bs => {
+            let r: StreamResult<BTreeSet<T3>, S::Error, Infallible> = src.collect_triples();
+            let fin = match &r {
+                Ok(g) => render_items(&graph_items(g)),
                 Err(_) => "-".into(),
             };
             (ret_of(&r, |_| "infallible".into()), None, None, fin)
@@ -911,82 +1180,115 @@ fn consume_t<S: TripleSource>(s: S, cx: &Cx) -> Obs {
         }
         Cons::Add(pre) => {
             let mut g = sophia_inmem::graph::LightGraph::new();
-            for p in pre {
-                g.insert_triple(t3(p.val())).unwrap();
-            }
+            pre_t(&mut g, pre);
             let r = src.add_to_graph(&mut g);
             (ret_of(&r, index_full), r.ok(), None, render_items(&graph_items(&g)))
         }
+        Cons::AddH(pre) => {
+            let mut g: HashSet<T3> = HashSet::new();
+            pre_t(&mut g, pre);
+            let r = src.add_to_graph(&mut g);
+            (ret_of(&r, |_| "infallible".into()), r.ok(), None, render_items(&graph_items(&g)))
+        }
         Cons::Ins(pre) => {
             let mut g = sophia_inmem::graph::FastGraph::new();
-            for p in pre {
-                g.insert_triple(t3(p.val())).unwrap();
-            }
+            pre_t(&mut g, pre);
             let r = g.insert_all(src);
             (ret_of(&r, index_full), r.ok(), None, render_items(&graph_items(&g)))
         }
         Cons::Rem(pre) => {
             let mut g = sophia_inmem::graph::LightGraph::new();
-            for p in pre {
-                g.insert_triple(t3(p.val())).unwrap();
-            }
+            pre_t(&mut g, pre);
             let r = g.remove_all(src);
             (ret_of(&r, index_full), r.ok(), None, render_items(&graph_items(&g)))
         }
+        Cons::RemB(pre) => {
+            let mut g: BTreeSet<T3> = BTreeSet::new();
+            pre_t(&mut g, pre);
+            let r = g.remove_all(src);
+            (ret_of(&r, |_| "infallible".into()), r.ok(), None, render_items(&graph_items(&g)))
+        }
         Cons::Small(free, pre) => {
-            let mut g = small_graph(*free, pre);
+            let Some(mut g) = small_graph(*free, pre) else { return Obs::bad("small-uncalibrated") };
             let r = g.insert_all(src);
             (ret_of(&r, index_full), r.ok(), None, render_items(&graph_items(&g)))
         }
         Cons::Ser(limit, e) => {
-            let mut w = FailAfter { buf: vec![], limit: *limit, msg: e.clone() };
+            let mut w = FailAfter { buf: vec![], limit: *limit, msg: e.clone(), log: log.clone(), refused_at: None };
             let ret = {
                 let mut ser = sophia_turtle::serializer::nt::NtSerializer::new(&mut w);
                 let r = ser.serialize_triples(src).map(|_| ());
                 ret_of(&r, |e| e.to_string())
             };
+            refused_at = w.refused_at;
             (ret, None, None, hex_bytes(&w.buf))
+        }
+        Cons::Rio(kind, limit, e, _) => {
+            let mut w = FailAfter { buf: vec![], limit: *limit, msg: e.clone(), log: log.clone(), refused_at: None };
+            let ret = match kind {
+                RioKind::Ttl => {
+                    let mut ser = sophia_turtle::serializer::turtle::TurtleSerializer::new(&mut w);
+                    let r = ser.serialize_triples(src).map(|_| ());
+                    ret_of(&r, |e| e.to_string())
+                }
+                RioKind::Xml => {
+                    let mut ser = sophia_xml::serializer::RdfXmlSerializer::new(&mut w);
+                    let r = ser.serialize_triples(src).map(|_| ());
+                    ret_of(&r, |e| e.to_string())
+                }
+                RioKind::Trig => return Obs::bad("bad-consumer"),
+            };
+            refused_at = w.refused_at;
+            (ret, None, None, "-".to_string())
         }
     };
     let log = log.borrow().clone();
-    Obs { log, ret, val, steps, fin, notes }
+    Obs { log, ret, val, steps, fin, notes, refused_at }
 }
 
-fn consume_q<S: QuadSource>(s: S, cx: &Cx) -> Obs {
+fn consume_q<S: QuadSource>(s: S, cx: &Cx) -> Obs
+where
+    S::Error: 'static,
+{
     let log: Log = Rc::new(RefCell::new(vec![]));
     let mut src = TapQ { inner: s, log: log.clone() };
     let mut notes = vec![];
-    let item = |q: &dyn Fn() -> (u64, u64)| {
-        let (n, g) = q();
-        It::Q(n, g)
-    };
-    let _ = &item;
+    let mut refused_at = None;
     let (ret, val, steps, fin) = match &cx.cons {
         Cons::Try(j, e) => {
             let mut own: Vec<It> = vec![];
             let mut calls = 0usize;
-            let (ret, steps) = if cx.stepwise {
+            let (ret, steps) = if cx.mode != Mode::W {
                 let mut steps = 0usize;
                 let ret = loop {
-                    let r = src.try_for_some_item(|q| {
-                        own.push(It::Q(val_q(&q), g_q(&q)));
-                        let c = calls;
-                        calls += 1;
-                        if Some(c) == *j { Err(SinkErr(e.clone())) } else { Ok(()) }
-                    });
+                    let r = if cx.mode == Mode::S2 {
+                        src.try_for_some_quad(|x| {
+                            own.push(It::Q(val_q(&x), g_q(&x)));
+                            let c = calls;
+                            calls += 1;
+                            if Some(c) == *j { Err(SinkErr(e.clone())) } else { Ok(()) }
+                        })
+                    } else {
+                        src.try_for_some_item(|x| {
+                            own.push(It::Q(val_q(&x), g_q(&x)));
+                            let c = calls;
+                            calls += 1;
+                            if Some(c) == *j { Err(SinkErr(e.clone())) } else { Ok(()) }
+                        })
+                    };
                     match r {
                         Ok(true) => steps += 1,
                         Ok(false) => break Ret::Ok,
                         r => break ret_of(&r, |e| e.0.clone()),
                     }
-                    if steps > 10_000 {
+                    if steps > 100_000 {
                         break Ret::Src("never-ending".into());
                     }
                 };
                 (ret, Some(steps))
             } else {
-                let r = src.try_for_each_item(|q| {
-                    own.push(It::Q(val_q(&q), g_q(&q)));
+                let r = src.try_for_each_item(|x| {
+                    own.push(It::Q(val_q(&x), g_q(&x)));
                     let c = calls;
                     calls += 1;
                     if Some(c) == *j { Err(SinkErr(e.clone())) } else { Ok(()) }
@@ -1000,7 +1302,24 @@ fn consume_q<S: QuadSource>(s: S, cx: &Cx) -> Obs {
         }
         Cons::For => {
             let mut own: Vec<It> = vec![];
-            let r = src.for_each_item(|q| own.push(It::Q(val_q(&q), g_q(&q))));
+            let (r, steps) = if cx.mode == Mode::F {
+                // `for_some_quad` until it returns `Ok(false)` or an error
+                let mut steps = 0usize;
+                let r = loop {
+                    match src.for_some_quad(|x| own.push(It::Q(val_q(&x), g_q(&x)))) {
+                        Ok(true) => steps += 1,
+                        Ok(false) => break Ok(()),
+                        Err(e) => break Err(e),
+                    }
+                    if steps > 100_000 {
+                        notes.push("never_ending".into());
+                        break Ok(());
+                    }
+                };
+                (r, Some(steps))
+            } else {
+                (src.for_each_item(|x| own.push(It::Q(val_q(&x), g_q(&x)))), None)
+            };
             if own != *log.borrow() {
                 notes.push("tap".into());
             }
@@ -1010,14 +1329,30 @@ fn consume_q<S: QuadSource>(s: S, cx: &Cx) -> Obs {
                     Err(e) => Ret::Src(src_payload(&e)),
                 },
                 None,
-                None,
+                steps,
                 "-".to_string(),
             )
         }
         Cons::Vec => {
             let r: StreamResult<Vec<Q4>, S::Error, Infallible> = src.collect_quads();
             let fin = match &r {
-                Ok(v) => render_items(&v.iter().map(|q| It::Q(val_q(q), g_q(q))).collect::<Vec<_>>()),
+                Ok(v) => render_items(&v.iter().map(|x| It::Q(val_q(x), g_q(x))).collect::<Vec<_>>()),
+                Err(_) => "-".into(),
+            };
+            (ret_of(&r, |_| "infallible".into()), None, None, fin)
+        }
+        Cons::Hs => {
+            let r: StreamResult<HashSet<Q4>, S::Error, Infallible> = src.collect_quads();
+            let fin = match &r {
+                Ok(g) => render_items(&dataset_items(g)),
+                Err(_) => "-".into(),
+            };
+            (ret_of(&r, |_| "infallible".into()), None, None, fin)
+        }
+        Cons::Bs => {
+            let r: StreamResult<BTreeSet<Q4>, S::Error, Infallible> = src.collect_quads();
+            let fin = match &r {
+                Ok(g) => render_items(&dataset_items(g)),
                 Err(_) => "-".into(),
             };
             (ret_of(&r, |_| "infallible".into()), None, None, fin)
@@ -1025,7 +1360,7 @@ fn consume_q<S: QuadSource>(s: S, cx: &Cx) -> Obs {
         Cons::Lg => {
             let r: StreamResult<sophia_inmem::dataset::LightDataset, _, _> = src.collect_quads();
             let fin = match &r {
-                Ok(d) => render_items(&dataset_items(d)),
+                Ok(g) => render_items(&dataset_items(g)),
                 Err(_) => "-".into(),
             };
             (ret_of(&r, index_full), None, None, fin)
@@ -1033,54 +1368,68 @@ fn consume_q<S: QuadSource>(s: S, cx: &Cx) -> Obs {
         Cons::Fg => {
             let r: StreamResult<sophia_inmem::dataset::FastDataset, _, _> = src.collect_quads();
             let fin = match &r {
-                Ok(d) => render_items(&dataset_items(d)),
+                Ok(g) => render_items(&dataset_items(g)),
                 Err(_) => "-".into(),
             };
             (ret_of(&r, index_full), None, None, fin)
         }
         Cons::Add(pre) => {
-            let mut d = sophia_inmem::dataset::LightDataset::new();
-            for p in pre {
-                if let It::Q(n, g) = p {
-                    d.insert_quad(q4(*n, *g)).unwrap();
-                }
-            }
-            let r = src.add_to_dataset(&mut d);
-            (ret_of(&r, index_full), r.ok(), None, render_items(&dataset_items(&d)))
+            let mut g = sophia_inmem::dataset::LightDataset::new();
+            pre_q(&mut g, pre);
+            let r = src.add_to_dataset(&mut g);
+            (ret_of(&r, index_full), r.ok(), None, render_items(&dataset_items(&g)))
+        }
+        Cons::AddH(pre) => {
+            let mut g: HashSet<Q4> = HashSet::new();
+            pre_q(&mut g, pre);
+            let r = src.add_to_dataset(&mut g);
+            (ret_of(&r, |_| "infallible".into()), r.ok(), None, render_items(&dataset_items(&g)))
         }
         Cons::Ins(pre) => {
-            let mut d = sophia_inmem::dataset::FastDataset::new();
-            for p in pre {
-                if let It::Q(n, g) = p {
-                    d.insert_quad(q4(*n, *g)).unwrap();
-                }
-            }
-            let r = d.insert_all(src);
-            (ret_of(&r, index_full), r.ok(), None, render_items(&dataset_items(&d)))
+            let mut g = sophia_inmem::dataset::FastDataset::new();
+            pre_q(&mut g, pre);
+            let r = g.insert_all(src);
+            (ret_of(&r, index_full), r.ok(), None, render_items(&dataset_items(&g)))
         }
         Cons::Rem(pre) => {
-            let mut d = sophia_inmem::dataset::LightDataset::new();
-            for p in pre {
-                if let It::Q(n, g) = p {
-                    d.insert_quad(q4(*n, *g)).unwrap();
-                }
-            }
-            let r = d.remove_all(src);
-            (ret_of(&r, index_full), r.ok(), None, render_items(&dataset_items(&d)))
+            let mut g = sophia_inmem::dataset::LightDataset::new();
+            pre_q(&mut g, pre);
+            let r = g.remove_all(src);
+            (ret_of(&r, index_full), r.ok(), None, render_items(&dataset_items(&g)))
+        }
+        Cons::RemB(pre) => {
+            let mut g: BTreeSet<Q4> = BTreeSet::new();
+            pre_q(&mut g, pre);
+            let r = g.remove_all(src);
+            (ret_of(&r, |_| "infallible".into()), r.ok(), None, render_items(&dataset_items(&g)))
         }
         Cons::Small(..) => return Obs::bad("small-needs-triples"),
         Cons::Ser(limit, e) => {
-            let mut w = FailAfter { buf: vec![], limit: *limit, msg: e.clone() };
+            let mut w = FailAfter { buf: vec![], limit: *limit, msg: e.clone(), log: log.clone(), refused_at: None };
             let ret = {
                 let mut ser = sophia_turtle::serializer::nq::NqSerializer::new(&mut w);
                 let r = ser.serialize_quads(src).map(|_| ());
                 ret_of(&r, |e| e.to_string())
             };
+            refused_at = w.refused_at;
             (ret, None, None, hex_bytes(&w.buf))
+        }
+        Cons::Rio(kind, limit, e, _) => {
+            let mut w = FailAfter { buf: vec![], limit: *limit, msg: e.clone(), log: log.clone(), refused_at: None };
+            let ret = match kind {
+                RioKind::Trig => {
+                    let mut ser = sophia_turtle::serializer::trig::TrigSerializer::new(&mut w);
+                    let r = ser.serialize_quads(src).map(|_| ());
+                    ret_of(&r, |e| e.to_string())
+                }
+                _ => return Obs::bad("bad-consumer"),
+            };
+            refused_at = w.refused_at;
+            (ret, None, None, "-".to_string())
         }
     };
     let log = log.borrow().clone();
-    Obs { log, ret, val, steps, fin, notes }
+    Obs { log, ret, val, steps, fin, notes, refused_at }
 }
 
 // ------------------------------------------------------------------ building the pipeline
@@ -1382,6 +1731,7 @@ struct Expect {
     ret: Ret,
     val: Option<usize>,
     fin: Option<String>,
+    max_pulled: usize,
 }
 
 /// reference serialisation of one item (the real serializer on an unbounded buffer, no fault)
@@ -1400,10 +1750,28 @@ fn ref_bytes(i: It) -> Vec<u8> {
     }
 }
 
-fn expect(src: &Src, chain: &[Adapter], cons: &Cons) -> Expect {
+/// the steps of a source: number of delivered items per step, and whether the step fails
+fn steps_of(src: &Src) -> Vec<(Vec<It>, bool)> {
+    match src {
+        Src::Iter(_, v) => v
+            .iter()
+            .map(|r| match r {
+                Ok(i) => (vec![*i], false),
+                Err(_) => (vec![], true),
+            })
+            .collect(),
+        Src::Doc(sc) | Src::Chunk(_, sc) => sc.iter().map(|(is, e)| (is.clone(), e.is_some())).collect(),
+    }
+}
+
+/// What the property demands of this run.  The position of a sink failure is the request's own
+/// (`try`), or — for writers and the small index, whose failure position depends on bytes / slots —
+/// taken from what the writer was *observed* to refuse (`refused_at`) resp. from the calibrated
+/// slot arithmetic; never from a byte-exact expectation.
+fn expect(src: &Src, chain: &[Adapter], cons: &Cons, obs: &Obs) -> Expect {
     let (items, err) = delivered(src);
     let xs = chain_meaning(chain, &items);
-    // index of the item on which the sink fails, payload
+    // number of items handed to the sink when it fails (the failing one included), payload
     let mut sink_fail: Option<(usize, String)> = None;
     let mut fin = None;
     let mut val = None;
@@ -1411,14 +1779,14 @@ fn expect(src: &Src, chain: &[Adapter], cons: &Cons) -> Expect {
         Cons::Try(j, e) => {
             if let Some(j) = j {
                 if *j < xs.len() {
-                    sink_fail = Some((*j, e.clone()));
+                    sink_fail = Some((*j + 1, e.clone()));
                 }
             }
         }
         Cons::For => {}
         Cons::Vec => fin = Some(render_items(&xs)),
-        Cons::Lg | Cons::Fg => fin = Some(render_items(&sorted(xs.clone()))),
-        Cons::Add(pre) | Cons::Ins(pre) => {
+        Cons::Lg | Cons::Fg | Cons::Hs | Cons::Bs => fin = Some(render_items(&sorted(xs.clone()))),
+        Cons::Add(pre) | Cons::Ins(pre) | Cons::AddH(pre) => {
             let p = sorted(pre.clone());
             let mut all = p.clone();
             all.extend(xs.iter().copied());
@@ -1426,7 +1794,7 @@ fn expect(src: &Src, chain: &[Adapter], cons: &Cons) -> Expect {
             val = Some(all.len() - p.len());
             fin = Some(render_items(&all));
         }
-        Cons::Rem(pre) => {
+        Cons::Rem(pre) | Cons::RemB(pre) => {
             let p = sorted(pre.clone());
             let left: Vec<It> = p.iter().copied().filter(|i| !xs.contains(i)).collect();
             val = Some(p.len() - left.len());
@@ -1440,7 +1808,7 @@ fn expect(src: &Src, chain: &[Adapter], cons: &Cons) -> Expect {
             for (idx, x) in xs.iter().enumerate() {
                 if !known.contains(&x.val()) {
                     if free == 0 {
-                        sink_fail = Some((idx, "index-full".into()));
+                        sink_fail = Some((idx + 1, "index-full".into()));
                         break;
                     }
                     free -= 1;
@@ -1452,21 +1820,16 @@ fn expect(src: &Src, chain: &[Adapter], cons: &Cons) -> Expect {
             val = Some(all.len() - p.len());
             fin = Some(render_items(&all));
         }
-        Cons::Ser(limit, e) => {
-            let mut out: Vec<u8> = vec![];
-            for (idx, x) in xs.iter().enumerate() {
-                out.extend(ref_bytes(*x));
-                if out.len() > *limit {
-                    out.truncate(*limit);
-                    sink_fail = Some((idx, e.clone()));
-                    break;
-                }
+        Cons::Ser(_, e) | Cons::Rio(_, _, e, _) => {
+            // the writer refused bytes while the sink was working on item number `n` (or before any /
+            // after all of them): the stream must have stopped right there, as a SinkError
+            if let Some(n) = obs.refused_at {
+                sink_fail = Some((n.min(xs.len()), e.clone()));
             }
-            fin = Some(hex_bytes(&out));
         }
     }
     let (log, ret) = match sink_fail {
-        Some((idx, p)) => (xs[..=idx].to_vec(), Ret::Sink(p)),
+        Some((n, p)) => (xs[..n].to_vec(), Ret::Sink(p)),
         None => (
             xs.clone(),
             match &err {
@@ -1477,16 +1840,34 @@ fn expect(src: &Src, chain: &[Adapter], cons: &Cons) -> Expect {
     };
     if ret != Ret::Ok {
         val = None;
-        if matches!(cons, Cons::Vec | Cons::Lg | Cons::Fg) {
+        if matches!(cons, Cons::Vec | Cons::Lg | Cons::Fg | Cons::Hs | Cons::Bs) {
             fin = Some("-".into());
         }
-        if let (Cons::Add(pre) | Cons::Ins(pre), Ret::Src(_)) = (cons, &ret) {
-            let mut all = pre.clone();
-            all.extend(log.iter().copied());
-            fin = Some(render_items(&sorted(all)));
+    }
+    // how far the source may have been consumed: up to and including the step of the fault
+    let steps = steps_of(src);
+    let mut max_pulled = steps.len();
+    let mut out_count = 0usize;
+    'outer: for (t, (is, fails)) in steps.iter().enumerate() {
+        if matches!(ret, Ret::Sink(_)) && log.is_empty() {
+            max_pulled = 0;
+            break;
+        }
+        for i in is {
+            if !chain_meaning(chain, &[*i]).is_empty() {
+                out_count += 1;
+                if matches!(ret, Ret::Sink(_)) && out_count == log.len() {
+                    max_pulled = t + 1;
+                    break 'outer;
+                }
+            }
+        }
+        if *fails {
+            max_pulled = t + 1;
+            break;
         }
     }
-    Expect { log, ret, val, fin }
+    Expect { log, ret, val, fin, max_pulled }
 }
 
 // ------------------------------------------------------------------ exec
@@ -1507,7 +1888,13 @@ pub fn exec(line: &str) -> String {
     let (Some(src), Some((chain, iter_at)), Some(cons)) = (parse_src(f[1]), parse_chain(f[2]), Cons::parse(f[3])) else {
         return "bad-op".into();
     };
-    let stepwise = f[4] == "s";
+    let mode = match f[4] {
+        "w" => Mode::W,
+        "s" => Mode::S,
+        "S" => Mode::S2,
+        "f" => Mode::F,
+        _ => return "bad-op".into(),
+    };
     let mut fmt = None;
     let mut doc = None;
     for t in &f[5..] {
@@ -1517,7 +1904,9 @@ pub fn exec(line: &str) -> String {
             doc = unhex_bytes(v);
         }
     }
-    let cx = Cx { cons: cons.clone(), stepwise, total: chain.len(), iter_at };
+    let cx = Cx { cons: cons.clone(), mode, total: chain.len(), iter_at };
+    let pulled = Rc::new(Cell::new(0usize));
+    EXPECTED_SRC.with(|x| *x.borrow_mut() = if matches!(src, Src::Doc(_)) { delivered(&src).1 } else { None });
     let obs = match &src {
         Src::Iter(quads, v) => {
             if *quads {
@@ -1529,7 +1918,7 @@ pub fn exec(line: &str) -> String {
                         Err(e) => Err(SrcErr(e.clone())),
                     })
                     .collect();
-                start_q(it.into_iter(), &chain, &cx)
+                start_q(Counting { inner: it.into_iter(), pulled: pulled.clone() }, &chain, &cx)
             } else {
                 let it: Vec<Result<T3, SrcErr>> = v
                     .iter()
@@ -1538,7 +1927,7 @@ pub fn exec(line: &str) -> String {
                         Err(e) => Err(SrcErr(e.clone())),
                     })
                     .collect();
-                start_t(it.into_iter(), &chain, &cx)
+                start_t(Counting { inner: it.into_iter(), pulled: pulled.clone() }, &chain, &cx)
             }
         }
         Src::Doc(_) => {
@@ -1550,7 +1939,7 @@ pub fn exec(line: &str) -> String {
                 .iter()
                 .map(|(is, e)| (is.iter().map(|i| t3(i.val())).collect::<Vec<T3>>(), e.clone()))
                 .collect();
-            start_t(Chunked::<T3> { steps }, &chain, &cx)
+            start_t(Chunked::<T3> { steps, pulled: pulled.clone() }, &chain, &cx)
         }
         Src::Chunk(true, sc) => {
             let steps = sc
@@ -1566,9 +1955,13 @@ pub fn exec(line: &str) -> String {
                     (v, e.clone())
                 })
                 .collect();
-            start_q(Chunked::<Q4> { steps }, &chain, &cx)
+            start_q(Chunked::<Q4> { steps, pulled: pulled.clone() }, &chain, &cx)
         }
     };
+    if obs.notes.iter().any(|n| n == "small-uncalibrated") {
+        // the small index does not behave as one slot per new literal: nothing can be said here
+        return "skip=small-uncalibrated".into();
+    }
     if obs.notes.iter().any(|n| n.starts_with("bad-") || n.starts_with("small-")) {
         return "bad-op".into();
     }
@@ -1580,10 +1973,18 @@ pub fn exec(line: &str) -> String {
         obs.fin
     );
     if let Some(s) = obs.steps {
-        out += &format!(" steps={}", s);
+        // informational: the number of rounds is not part of the property
+        out += &format!(" info.steps={}", s);
+    }
+    let counted = !matches!(src, Src::Doc(_));
+    if counted {
+        out += &format!(" pulled={}", pulled.get());
     }
     // the property, evaluated here
-    let ex = expect(&src, &chain, &cons);
+    let ex = expect(&src, &chain, &cons, &obs);
+    if counted && pulled.get() > ex.max_pulled {
+        out += &format!(" FAIL.readahead=pulled:{}:allowed:{}", pulled.get(), ex.max_pulled);
+    }
     if obs.log != ex.log {
         out += &format!(" FAIL.log=expected:{}", render_items(&ex.log));
     }
